@@ -279,8 +279,11 @@ pub fn main(args: &[String]) -> i32 {
             let set = model.is_match_set(&inp);
             let ord = model.find_ordered(&inp, 0);
             if let (Ok(sb), Ok(o)) = (set, ord) {
-                // ordered semantics rejects optional empty iterations, which cannot change is_match
-                if sb != o.is_some() && sem_fail.len() < 5 {
+                // ordered semantics rejects optional empty iterations, which cannot change is_match -
+                // unless a back-reference reads a group that such an iteration would have emptied
+                // (the capture readings of section 9.1 differ there; the monitors call that disputed)
+                let disputed = ast.has_backref() && ast.has_group_in_quant();
+                if sb != o.is_some() && !disputed && sem_fail.len() < 5 {
                     sem_fail.push(format!("{:?} flags {:?} input {:?}: set={} ordered={:?}", text, fl, inp, sb, o.as_ref().map(|x| (x.0, x.1))));
                 }
                 if let Some((st, e, env)) = o {
